@@ -238,9 +238,73 @@ def work(args):
     return out
 
 
+def work_wide(args):
+    '''ids and run ids that cross a decimal digit boundary: 12 algorithms in
+    one task (ids 0..11, so id 1 is a textual prefix of 10 and 11), runs
+    8, 9, 10, 11, 99, 100, 101; after every insert: invariants + next();
+    then reset / remove / trace of every algorithm'''
+    tier, seed, order = args
+    import dawgie.db
+    from dawgie.db.shelve.state import DBI
+    from . import world, mini
+
+    ctx = common.Ctx('C08', tier, seed, LEVEL)
+    algs = [f'g{i}' for i in range(12)]
+    if order:
+        algs = list(reversed(algs))
+    runs = [8, 9, 10, 11, 99, 100, 101]
+    content = []
+    w = world.StoreWorld()
+    try:
+        ids = {}
+        for i, a in enumerate(algs):
+            ver = (1, i % 3, i)
+            for r in (5, runs[i % len(runs)]):
+                k = (r, 'T', 't', a, ver, 's', 'v')
+                insert(k, i % 3)
+                content.append(k)
+                ctx.count('inserts')
+                rep = {'content': content, 'wide': True}
+                invariants(ctx, content, ids, 'wide-after-insert', rep)
+        w.reopen_from_disk()
+        invariants(ctx, content, ids, 'wide-after-reopen', {'content': content, 'wide': True})
+        for i, a in enumerate(algs):
+            ver = (1, i % 3, i)
+            obj = mini.Alg(a, ver=(9, 9, 9), svs=[mini.SV('s', ver=(9, 9, 9))])
+            ctx.count('resets')
+            dawgie.db.reset(5, 'T', 't', obj)
+            if tuple(obj._get_ver()) != ver:
+                ctx.violation('C08/reset/wrong-version/wide',
+                              f'reset(5,T,t,{a}) set version {tuple(obj._get_ver())}, stored {ver} '
+                              f'(algorithm id {DBI().tables.alg.get(f"0:parent___{a}___version:" + ".".join(map(str, ver)))})',
+                              {'content': content, 'wide': True, 'op': ['reset', [5, 'T', 't', a]]})
+            ctx.count('traces')
+            got = dawgie.db.trace([f't.{a}'])
+            want = {'T': {f't.{a}': max(5, runs[i % len(runs)])}}
+            if got != want:
+                ctx.violation('C08/trace/wide', f'trace([t.{a}]) = {got}, expected {want}',
+                              {'content': content, 'wide': True, 'op': ['trace', f't.{a}']})
+        prime = DBI().tables.prime
+        for i, a in enumerate(algs):
+            before = dict(prime)
+            ctx.count('removes')
+            dawgie.db.remove(5, 'T', 't', a, 's', 'v')
+            gone = set(before) - set(dict(prime))
+            if len(gone) != 1:
+                ctx.violation('C08/remove/wide', f'remove(5,T,t,{a},s,v) deleted {sorted(gone)}',
+                              {'content': content, 'wide': True, 'op': ['remove', [5, 'T', 't', a, 's', 'v']]})
+            for ks in gone:
+                prime[ks] = before[ks]
+    finally:
+        w.close()
+    return ctx.export()
+
+
 def run(ctx):
     from . import world
     world.validate_digest_seam(common.scratch_root())
+    for r in common.pmap(work_wide, [(ctx.tier, ctx.seed, 0), (ctx.tier, ctx.seed, 1)]):
+        ctx.merge(r)
     nsh = 32
     shapes = set()
     for r in common.pmap(work, [(ctx.tier, ctx.seed, s, nsh) for s in range(nsh)]):
